@@ -196,8 +196,21 @@ def _unary_set(k):
     return parts
 
 
+def _lib_conjugates(q):
+    """q* through every public conjugate route."""
+    Quaternion, QuaternionArray, DCM, O = _lib()
+    return {'Quaternion.conjugate': np.asarray(Quaternion(q.copy()).conjugate), 'Quaternion.conj': np.asarray(Quaternion(q.copy()).conj),
+            'q_conj': np.asarray(O.q_conj(q.copy())), 'QuaternionArray.conjugate': np.asarray(QuaternionArray(q.copy()[None]).conjugate())[0],
+            'Quaternion.inverse': np.asarray(Quaternion(q.copy()).inverse)}
+
+
 def job_unary(ctx, k, part):
+    Quaternion, QuaternionArray, DCM, O = _lib()
     name, S = _unary_set(k)[part]
+    # history: a scalar-last object is used first (its conjugate, product and matrix), so that state shared between
+    # quaternion objects of different storage order would be visible in everything that follows
+    foreign = Quaternion(np.roll(A.MENU[(k + 1) % 8], -1).copy(), order='S')
+    _ = (foreign.conjugate, foreign.product(A.MENU[k].copy()), foreign.to_DCM())
     Mb = _routes_batch(S)
     Mb_neg = _routes_batch(-S)
     conj = S * np.array([1.0, -1, -1, -1])
@@ -222,6 +235,11 @@ def job_unary(ctx, k, part):
             d = rq.so3_defect(M)
             ctx.track('unary.so3_defect', d)
             ctx.expect(d <= TOL, f'{rname} is a proper rotation', key, d, 0, TOL)
+        if i in (len(S) // 3, 2 * len(S) // 3):        # the foreign object is used again part-way (1, 2 and 3 uses are all covered)
+            _ = (foreign.conjugate, foreign.product(q.copy()))
+        for cname, cq in _lib_conjugates(q).items():
+            ctx.close(cq, conj[i], 1e-15, f'{cname} = (w, -x, -y, -z)', key)
+            ctx.close(np.asarray(Quaternion(cq.copy()).to_DCM()), Ms['Quaternion.to_DCM'].T, TOL, f'M(q*) = M(q)^T with q* from {cname}', key)
         ctx.seen(('unary', name, k, i))
         ctx.cls('unary:edge' if name == 'EDGE4' else 'unary:' + name.split('(')[0].split(':')[0])
         ctx.transitions += 1
